@@ -1339,6 +1339,26 @@ impl ObjectFile {
     }
 }
 
+/// Verification-only accessors (cargo feature `verif-hooks`, off by default).
+#[cfg(feature = "verif-hooks")]
+impl ObjectFile {
+    /// The blocks of the object file: start address and words, ascending.
+    pub fn verif_blocks(&self) -> Vec<(u16, Vec<Option<u16>>)> {
+        self.block_iter().map(|(a, b)| (a, b.to_vec())).collect()
+    }
+}
+#[cfg(feature = "verif-hooks")]
+impl SymbolTable {
+    /// Label table entries: name, address, source start, external flag (unspecified order).
+    pub fn verif_labels(&self) -> Vec<(String, u16, usize, bool)> {
+        self.label_map.iter().map(|(k, d)| (k.clone(), d.addr, d.src_start, d.external)).collect()
+    }
+    /// Relocation table entries (unspecified order).
+    pub fn verif_relocations(&self) -> Vec<(u16, String)> {
+        self.rel_map.iter().map(|(&a, l)| (a, l.clone())).collect()
+    }
+}
+
 /// Used for [`std::fmt::Debug`] purposes.
 #[repr(transparent)]
 struct Addr(u16);
